@@ -67,6 +67,18 @@ def run_script(impl, cfg, script, nslots, seed=0, preempt=False):
             elif k == 'disconnect':
                 w.nreq += 1
                 w.app_disconnect_with_id(op['s'], w.nreq)
+            elif k == 'disconnectall':
+                w.nreq += 1
+                w.app_disconnect_with_id(None, w.nreq)
+            elif k == 'transport':
+                w.app_transport(op['s'])
+            elif k == 'sessctx':
+                w.app_session_ctx(op['s'], op['tok'])
+            elif k == 'apiunknown':
+                if op['call'] == 'disconnect':
+                    w.nreq += 1
+                w.app_unknown(op['call'], op.get('variant', 0), w.nreq)
+                a = {'call': op['call']}
             elif k == 'save':
                 w.app_save_session(op['s'], op['tok'])
             elif k == 'get':
@@ -165,7 +177,7 @@ FRAMES = ['PINGprobe', 'UPGRADE', 'PONG', 'm1', 'm3', 'mE1', 'CLOSE', 'BAD7', 'O
 def gen_script(rng, nslots, length, weights=None, horizon=200, tstep=(1, 24)):
     wts = {'open': 3, 'openrej': 1, 'openws': 1, 'poll': 6, 'post': 6, 'upgrade': 2,
            'wsframe': 8, 'wsframes': 2, 'wsdrop': 1, 'send': 6, 'disconnect': 1, 'save': 1, 'get': 1,
-           'tick': 6}
+           'transport': 1, 'sessctx': 1, 'disconnectall': 0, 'apiunknown': 1, 'tick': 6}
     if weights:
         wts.update(weights)
     kinds = [k for k in wts if wts[k] > 0]
@@ -188,11 +200,17 @@ def gen_script(rng, nslots, length, weights=None, horizon=200, tstep=(1, 24)):
         elif k == 'wsframes':
             script.append({'op': 'wsframes', 's': s,
                            'fs': [rng.choice(FRAMES) for _ in range(rng.choice([2, 2, 3]))]})
-        elif k == 'save':
-            script.append({'op': 'save', 's': s, 'tok': rng.randint(1, 9)})
+        elif k in ('save', 'sessctx'):
+            script.append({'op': k, 's': s, 'tok': rng.randint(1, 9)})
         elif k == 'tick':
             t += rng.randint(*tstep)
             script.append({'op': 'tick', 't': t})
+        elif k == 'disconnectall':
+            script.append({'op': 'disconnectall'})
+        elif k == 'apiunknown':
+            script.append({'op': 'apiunknown', 'variant': rng.randint(0, 5),
+                           'call': rng.choice(['send', 'get', 'save', 'transport', 'sessctx',
+                                               'disconnect'])})
         else:
             script.append({'op': k, 's': s})
     return script
